@@ -1090,6 +1090,41 @@ pub fn m_handoff(obs : &Obs) -> (Vec<Violation>, usize)
     (out, judged)
 }
 
+/* C03, second half: while a rule's command runs, nobody else modifies one of its declared sources */
+pub fn m_stable(obs : &Obs) -> (Vec<Violation>, usize)
+{
+    let mut out = vec![];
+    let mut windows = 0;
+    let scripts : BTreeMap<String, usize> = obs.rules.iter().enumerate().map(|(i, r)| (r.script_text(), i)).collect();
+    // open windows: (rule index, thread id)
+    let mut open : Vec<(usize, usize)> = vec![];
+    for e in obs.log.iter()
+    {
+        match e.op
+        {
+            Op::ExecBegin => { if let Some(i) = scripts.get(&e.note) { open.push((*i, e.tid)); windows += 1; } },
+            Op::ExecEnd => { if let Some(i) = scripts.get(&e.note) { open.retain(|(r, t)| !(*r == *i && *t == e.tid)); } },
+            _ =>
+            {
+                if e.ok && e.op.is_mutation()
+                {
+                    for (r, tid) in open.iter()
+                    {
+                        if e.tid == *tid { continue; }
+                        let rule = &obs.rules[*r];
+                        if rule.sources.iter().any(|s| *s == e.p1 || *s == e.p2)
+                        {
+                            out.push(Violation::new("C03", "source-modified-while-command-ran",
+                                format!("while the command of rule #{} was running, thread t{} performed {:?} {} {} on one of its declared sources", r, e.tid, e.op, e.p1, e.p2)));
+                        }
+                    }
+                }
+            },
+        }
+    }
+    (out, windows)
+}
+
 /* ------------------------------------------------------------------ helpers for evidence */
 
 pub fn obs_summary(obs : &Obs) -> J
